@@ -88,6 +88,7 @@ int main(int argc, char** argv) {
       auto in = genVals(r, n, o == 2 ? 4 : (int)r.below(5));
       if (o == 2) for (auto& x : in) x = ((x % P + P) % P) * P + (i64)r.below(P);
       i64 init = o == 2 ? (i64)(r.below(P) * P + r.below(P)) : (i64)r.below(9) - 2, idn = o == 2 ? P : 0;
+      if (o == 1 && init < 0) init = -init;   // AbsSum: 0 is an identity only on non-negative values (op(x, 0) = |x|), and parallel.h requires an identity for init and every partial sum
       std::vector<i64> out(n, -1), ref(n, -1);
       if (o == 0) { exclusive_scan(ExecutionPolicy::Par, in.begin(), in.end(), out.begin(), init, Add(), idn); std::exclusive_scan(in.begin(), in.end(), ref.begin(), init, Add()); }
       if (o == 1) { exclusive_scan(ExecutionPolicy::Par, in.begin(), in.end(), out.begin(), init, AbsSum(), idn); std::exclusive_scan(in.begin(), in.end(), ref.begin(), init, AbsSum()); }
